@@ -18,11 +18,11 @@ RULE = (
     "connected before its Logon, initiator after sending Logon, the same three states on the second connection of an object that "
     "already had a session (the client having been logged on by the peer first), ACTIVE x2 roles, RESENDREQ_AWAITING x2 roles} x inbound class in "
     "{Logon, Logout, Heartbeat, TestRequest, ResendRequest, GapFill, Reset, Reject, application} x defect in {none, wrong "
-    "BeginString (FIX.4.2, FIX.4.4x, FIX.4.40, FIX.4.4.1, FIX.5.0, FIXT.1.1), SenderCompID missing / wrong / padded with a blank / other case / one character longer, TargetCompID missing / wrong / padded with a tab / one character shorter, CompIDs swapped, MsgSeqNum missing, number below / "
+    "BeginString (FIX.4.2, FIX.4.4x, FIX.4.40, FIX.4.4.1, FIX.5.0, FIXT.1.1), SenderCompID missing / wrong / empty / padded with a blank / other case / one character longer / one character shorter, TargetCompID missing / wrong / padded with a tab / one character shorter, CompIDs swapped, MsgSeqNum missing, number below / "
     "at / above the expected one}; then send attempts of every message class (application, Heartbeat, TestRequest, Logon, Logout, "
     "ResendRequest, Reject, SequenceReset), also in the three disconnected states; after every disconnect Hypothesis-drawn further "
     "input (valid frames, garbage, EOF) and virtual time. Oracle: pre-logon a non-Logon frame is never delivered nor acted upon and "
-    "drops the connection (a Logout as the first frame of a connection produces no callback other than the disconnect); refused sends raise FIXConnectionError, write nothing, consume no number, leave no journal row; wrong "
+    "drops the connection, and what the application sends from inside on_state_change(ACTIVE) never overtakes the endpoint's own Logon (a Logout as the first frame of a connection produces no callback other than the disconnect); refused sends raise FIXConnectionError, write nothing, consume no number, leave no journal row; wrong "
     "BeginString frames have no effect; CompID / MsgSeqNum defects never reach on_message, never advance next_num_in, leave the "
     "endpoint disconnected (with a Logout carrying Text when the CompIDs were right); a disconnect is reported exactly once and "
     "nothing is emitted or called back afterwards. Non-trivial = defect != none or pre-logon state; the product is enumerated completely."
@@ -40,7 +40,7 @@ STATES = ["acc-connected", "init-connected", "init-logon-sent", "acc-active", "i
           # Logout stating a reason (too-low MsgSeqNum)
           "acc2-active", "init2-active"]
 CLASSES = ["A", "5", "0", "1", "2", "GF", "RS", "3", "D"]
-DEFECTS = ["none", "begin", "begin:FIX.4.4x", "begin:FIX.4.40", "begin:FIX.4.4.1", "begin:FIX.5.0", "begin:FIXT.1.1", "sender-missing", "sender-wrong", "sender-padded", "sender-case", "sender-longer", "target-missing", "target-wrong", "target-padded", "target-prefix", "swapped", "seq-missing", "seq-low", "seq-at", "seq-high"]
+DEFECTS = ["none", "begin", "begin:FIX.4.4x", "begin:FIX.4.40", "begin:FIX.4.4.1", "begin:FIX.5.0", "begin:FIXT.1.1", "sender-missing", "sender-wrong", "sender-padded", "sender-case", "sender-longer", "sender-prefix", "sender-empty", "target-missing", "target-wrong", "target-padded", "target-prefix", "swapped", "seq-missing", "seq-low", "seq-at", "seq-high"]
 SENDS = ["D", "0", "1", "A", "5", "2", "3", "4"]
 PRE = {"acc-connected", "init-connected", "init-logon-sent", "acc2-connected", "init2-connected", "init2-logon-sent"}
 
@@ -161,6 +161,10 @@ def build_frame(b, cls, defect, E, uid):
         hdr[0] = (49, sender + " ")
     elif defect == "sender-case":
         hdr[0] = (49, sender.swapcase())
+    elif defect == "sender-prefix":
+        hdr[0] = (49, sender[:-1])
+    elif defect == "sender-empty":
+        hdr[0] = (49, "")
     elif defect == "sender-longer":
         hdr[0] = (49, sender + "2")
     elif defect == "target-padded":
@@ -286,6 +290,7 @@ def one_case(acc, state, cls, defect, extra=(), uid=1):
             return
         E = ep._session.next_num_in
         pre = state in PRE
+        ep.send_on_active = True  # the application answers "ACTIVE" by sending at once, from inside on_state_change
         if defect == "seq-low" and E < 2:
             return
         fr = build_frame(b, cls, defect, E, uid)
@@ -297,7 +302,7 @@ def one_case(acc, state, cls, defect, extra=(), uid=1):
         evs = [e[0] for e in b.events()]
         disc_now = b.disconnected()
         seqreset = cls in ("GF", "RS")
-        compid_defect = defect in ("sender-missing", "sender-wrong", "target-missing", "target-wrong", "swapped") or defect.split("-")[-1] in ("padded", "case", "longer", "prefix")
+        compid_defect = defect in ("sender-missing", "sender-wrong", "target-missing", "target-wrong", "swapped") or defect.split("-")[-1] in ("padded", "case", "longer", "prefix", "empty")
 
         def expect_dropped(reason, logout_required):
             if s1["msgs"] != s0["msgs"]:
@@ -346,6 +351,11 @@ def one_case(acc, state, cls, defect, extra=(), uid=1):
                 expect_dropped(defect, True)
             elif defect == "seq-low" and not seqreset and "awaiting" not in state:
                 expect_dropped(defect, True)
+        # whatever the application sends when it is told "ACTIVE" must not overtake this endpoint's own Logon: a frame
+        # other than Logon / Logout before the own Logon is a send before the Logon exchange has completed
+        mts = [ref_get(p, 35) for _, p in wr]
+        if pre and "A" in mts and any(m not in ("A", "5") for m in mts[:mts.index("A")]):
+            bad("sent-before-own-logon", f"frames written while answering the Logon: {mts} (an application message left before this endpoint's Logon)")
         if pre and (ep.connection_state.name in ("ACTIVE", "RESENDREQ_AWAITING", "RESENDREQ_HANDLING") or "logon" in evs or s1["msgs"] != s0["msgs"]):
             sent_logon = any(ref_get(ref_parse_(x), 35) == "A" for x in b.all_written())
             if not sent_logon:
